@@ -22,14 +22,21 @@ RULE = ("records = (write/read history, storage configuration); histories are dr
         "dataset with the same parameters is the chunked one's baseline), deflate levels 0..9 and skphuff skip sizes "
         "1,2,3,4,5,8 compressed and chunked+compressed for SD and GR; GR creation interlace x requested read interlace "
         "(3 x 4 incl. 'never requested') for contiguous, chunked and chunked+compressed multi-component images with "
-        "GRwritechunk/GRreadchunk interleaved with GRwriteimage/GRreadimage of the same regions. Thorough tier: every chunk shape of every extent up to "
+        "GRwritechunk/GRreadchunk interleaved with GRwriteimage/GRreadimage of the same regions; byte-stream (H-level) "
+        "reads of the data element through three access ids at the same time (interleaved Hseek/Hread, reads without a "
+        "seek) under contiguous, chunked, chunked+compressed, compressed and external layouts for SD and GR; external "
+        "elements at offsets 0..4096 sharing their file with foreign guard bytes in front, written completely and then "
+        "partially rewritten near the end, with the guard bytes and the placement of the data in the external file "
+        "checked at the end. Thorough tier: every chunk shape of every extent up to "
         "4x4x3 with cache sizes 1..chunks+1. Each record's output is compared with the array specification. "
         "Function level: static chunk arithmetic of hchunks.c and mcache_get/put/sync vs the Coq models on generated "
         "and exhaustive small cases. A record is non-trivial when it transfers data under a non-baseline layout; "
         "distinct by (extent, type, configuration, operations)")
 TRUSTED = ["Coq 8.16.1 kernel",
            "translator gen/gen_consts.py + plugin gen/plugins/c04_chunk.py (constants and HASHKEY of mcache_priv.h; "
-           "assignment/condition expressions of the chunk arithmetic functions of hchunks.c; flag updates of mcache.c), "
+           "assignment/condition expressions of the chunk arithmetic functions of hchunks.c; flag updates of mcache.c; "
+           "position/length updates of hextelt.c HXPwrite/HXPread; ordered call lists with argument text of the hchunks.c "
+           "transfer routines and of the HXcreate/fseek calls of the external-file routines), "
            "through gcc -E",
            "extraction: Require Extraction + ExtrOcamlBasic; no Extract Constant; Z/positive/nat extracted as inductives",
            "OCaml driver extract/layout_main.ml, C harnesses harness/drive_layout.c, drive_chunkfn.c, drive_mcache.c, "
@@ -117,6 +124,8 @@ class Rec:
                 out.append("reopen")
             elif k == "cache":
                 out.append("cache %d" % o[1])
+            elif k == "hr":
+                out.append("hr %d %s" % (len(o[1]), " ".join("%d %d %d" % q for q in o[1])))
         out.append("end")
         return "\n".join(out)
 
@@ -158,6 +167,9 @@ def parse_records(text):
             cur.ops.append(("reopen",))
         elif t[0] == "cache":
             cur.ops.append(("cache", int(t[1])))
+        elif t[0] == "hr":
+            n = list(map(int, t[2:]))
+            cur.ops.append(("hr", [tuple(n[i:i + 3]) for i in range(0, 3 * int(t[1]), 3)]))
         elif t[0] == "end":
             recs.append(cur)
             cur = None
@@ -501,6 +513,97 @@ def region_reads(cdims, cl):
     return out
 
 
+def hr_op(g, total, unit=1):
+    """interleaved reads through three access ids: seeks and reads without a seek (the id continues where IT stands);
+    positions and counts are multiples of [unit] values (GR: whole pixels -- the chunk layer's element is the pixel and
+    it only seeks to whole elements)"""
+    r = g.r
+    total //= unit
+    pos = [0, 0, 0]
+    reqs = []
+    for _ in range(r.randrange(3, 9)):
+        a = r.randrange(3)
+        if r.random() < 0.45 and pos[a] < total:
+            p, start = -1, pos[a]
+        else:
+            start = r.randrange(total)
+            p = start
+        n = r.randrange(1, min(7, total - start) + 1)
+        reqs.append((a, p if p < 0 else p * unit, n * unit))
+        pos[a] = start + n
+    return ("hr", reqs)
+
+
+def with_hr(g, ops, total, every=0.35, unit=1):
+    out = []
+    for o in ops:
+        out.append(o)
+        if o[0] in ("w", "wc", "reopen") and g.r.random() < every:
+            out.append(hr_op(g, total, unit))
+    out.append(hr_op(g, total, unit))
+    return out
+
+
+def hlevel_records(g, tier):
+    """(a) the data element of every layout read at the H level through several access ids at the same time,
+    interleaved with the API-level history; (b) external elements at non-zero offsets, completely written first and
+    then partially rewritten/read (rows near the end included), sharing their file with foreign bytes in front"""
+    r = g.r
+    recs = []
+    for rep in range(10 if tier == "quick" else 60):
+        rank = r.choice([1, 2, 2, 3])
+        dims = [r.randrange(2, 7) for _ in range(rank)]
+        nt = r.choice(list(NTS))
+        lo, hi = vrange(nt)
+        fill = r.randrange(lo, hi + 1)
+        n = prod(dims)
+        first = ("w",) + tuple(g.full(dims)) + ([g.val(nt) for _ in range(n)],)
+        ops = [first] + g.base_ops(dims, nt, r.randrange(2, 7))
+        wops = whole_history(g, dims, nt)
+        recs.append(Rec(0, dims, nt, 1, fill, {"kind": 0}, with_hr(g, ops, n), "sd-hlevel"))
+        for _ in range(2):
+            cl = g.chunk_shape(dims)
+            recs.append(Rec(0, dims, nt, 1, fill, {"kind": 1, "cl": cl, "cache": r.choice([0, 1, 2, 3])},
+                            with_hr(g, g.chunk_variant(dims, cl, nt, ops), n), "sd-hlevel-chunk"))
+        coder, p = r.choice([(RLE, 0), (SKPHUFF, NTS[nt][0] // 8), (DEFLATE, r.randrange(1, 10))])
+        cl = g.chunk_shape(dims)
+        recs.append(Rec(0, dims, nt, 1, fill, {"kind": 3, "cl": cl, "cache": r.choice([0, 1, 2]), "coder": coder, "p1": p},
+                        with_hr(g, g.chunk_variant(dims, cl, nt, ops), n), "sd-hlevel-chunk-comp"))
+        recs.append(Rec(0, dims, nt, 1, fill, {"kind": 2, "coder": coder, "p1": p}, with_hr(g, wops, n), "sd-hlevel-comp"))
+        for off in r.sample([1, 3, 17, 64, 300, 4096], 2) + [0]:
+            recs.append(Rec(0, dims, nt, 1, fill, {"kind": 5, "p1": off}, with_hr(g, ops, n), "sd-external-rewrite"))
+        # GR
+        ncomp = r.choice([1, 2, 3])
+        ydim, xdim = r.randrange(2, 7), r.randrange(2, 7)
+        gd = [ydim, xdim, ncomp]
+        gnt = r.choice([21, 20, 23, 24, 5])
+        glo, ghi = vrange(gnt)
+        gfill = r.randrange(glo, ghi + 1)
+        gn = prod(gd)
+        gops = [("w",) + tuple(g.full(gd)) + ([g.val(gnt) for _ in range(gn)],)]
+        for _ in range(r.randrange(2, 7)):
+            c = r.random()
+            s_, t_, e_ = g.slab([ydim, xdim], contiguous=True)
+            if r.random() < 0.4:           # the last rows
+                s_[0], e_[0] = ydim - 1, 1
+            s_, t_, e_ = s_ + [0], t_ + [1], e_ + [ncomp]
+            if c < 0.5:
+                gops.append(("w", s_, t_, e_, [g.val(gnt) for _ in range(prod(e_))]))
+            elif c < 0.9:
+                gops.append(("r", s_, t_, e_) if r.random() < 0.5 else ("r",) + tuple(g.full(gd)))
+            else:
+                gops.append(("reopen",))
+        gops += [("reopen",), ("r",) + tuple(g.full(gd))]
+        recs.append(Rec(1, gd, gnt, 1, gfill, {"kind": 0}, with_hr(g, gops, gn, unit=ncomp), "gr-hlevel"))
+        cdims = [xdim, ydim, ncomp]
+        cl = g.chunk_shape(cdims[:2]) + [ncomp]
+        recs.append(Rec(1, gd, gnt, 1, gfill, {"kind": 1, "cl": cl, "cache": r.choice([0, 1, 2])},
+                        with_hr(g, g.chunk_variant(cdims, cl, gnt, gops), gn, unit=ncomp), "gr-hlevel-chunk"))
+        for off in r.sample([1, 5, 33, 200, 4096], 2) + [0]:
+            recs.append(Rec(1, gd, gnt, 1, gfill, {"kind": 5, "p1": off}, with_hr(g, gops, gn, unit=ncomp), "gr-external-rewrite"))
+    return recs
+
+
 def exhaustive_records(g, maxd):
     """every chunk shape of every extent up to maxd, cache sizes 1..chunks+1, one fixed history shape per extent"""
     recs = []
@@ -595,6 +698,9 @@ def compare_record(rec, rl, sl):
     if terminated:
         body = body[:-1]
     sl = [x for x in sl if x != "E"]
+    xl = [x for x in body if x.startswith("X ")]
+    if xl:
+        return "mismatch", "layout failure reported by the harness: " + xl[0][2:], st
     nb = rec.cfg["kind"] in (4, 7) and not nbit_exact(rec)
     st["nbit_exact"] = 1 if (rec.cfg["kind"] in (4, 7) and not nb) else 0
     for i, s in enumerate(sl):
@@ -616,7 +722,7 @@ def compare_record(rec, rl, sl):
                 st["refused"] += 1
                 return "refused", "op %d: partial rewrite refused by the coder" % i, st
             return "mismatch", "op %d: library '%s' / specification '%s'" % (i, r[:200], s[:200]), st
-        if r.startswith("r ") or r.startswith("rc "):
+        if r.startswith("r ") or r.startswith("rc ") or r.startswith("hr "):
             st["values"] += len(r.split()) - 1
     st["special"] = info[0][2:] if info else ""
     return "ok", "", st
@@ -736,9 +842,9 @@ def shrink(ctx, rec, budget=40):
     i = 0
     while i < len(cur.ops) and budget > 0:
         cand = Rec(cur.api, cur.dims, cur.nt, cur.hasfill, cur.fill, cur.cfg, cur.ops[:i] + cur.ops[i + 1:], cur.tag)
-        if cand.api == 1 and (not cand.ops or cand.ops[0][0] != "w"):
-            i += 1       # stay inside the domain: a GR image gets data before it is first closed
-            continue
+        if rec.ops and rec.ops[0][0] == "w" and (not cand.ops or cand.ops[0] != rec.ops[0]):
+            i += 1       # stay inside the domain: a history that starts by giving the dataset its data keeps doing so
+            continue     # (GR images and external datasets are only compared after they got data)
         budget -= 1
         bad, _, _, _, _ = still_fails(ctx, cand)
         if bad:
@@ -1016,6 +1122,7 @@ def run(ctx):
     recs += gr_records(g, ctx.tier, 150 if quick else 800)
     recs += coder_param_records(g, ctx.tier)
     recs += interlace_records(g, ctx.tier)
+    recs += hlevel_records(g, ctx.tier)
     recs += exhaustive_records(g, (3, 3, 2) if quick else (4, 4, 3))
     check_records(ctx, recs, "main", stats)
     ctx.corr("layouts~array-spec", **{k: v for k, v in stats.items()})
